@@ -22,7 +22,7 @@ RULE = ("COMPLETE enumeration of ordered pairs (importer, importee) of package p
         "message built through each referencing field must round-trip to an instance of that class, and well-known types "
         "must resolve to betterproto's bundled classes. Plus 'all at once': every package refers to every other with "
         "definitions and references in different files (mutually circular packages, many references in one module). All "
-        "pairs of one shard run in one process (so cross-module caches are exercised). distinct = distinct ordered pairs.")
+        "pairs of one shard run in one process (so cross-module caches are exercised). The holder also has a field NAMED like the import alias of a descendant package and two maps with suffix-related names. distinct = distinct ordered pairs.")
 ASSUMPTIONS = [
     "package path components are lower-case (upper-case package names are outside the grammar, see DESIGN)",
     "ruff is replaced by an identity stand-in when the plugin formats its output",
